@@ -589,3 +589,71 @@ func vh_C32_http_stream_protobuf_two_conns() {
 	}
 	vCover(len(msgs[0]) == len(msgs[1]) && len(msgs[0][0]) == len(msgs[1][0]), "same-shape-frames")
 }
+
+// C32 (sizes): framing must not depend on the message size. One JSON message
+// of a chosen total length L around the usual buffer boundaries (concrete
+// filler inside a string, symbolic first and last payload character), followed
+// by a small second message, over SSE or the JSON HTTP stream: two events /
+// records with exactly these contents.
+var vC32Sizes = []int{8, 63, 64, 65, 127, 128, 129, 255, 256, 257, 511, 512, 513, 1023, 1024, 1025, 2047, 2048, 2049, 4095, 4096, 4097}
+
+func vC32SizedMessage(L int) []byte {
+	// {"d":"<filler>"} : 8 bytes of envelope
+	m := make([]byte, 0, L)
+	m = append(m, '{', '"', 'd', '"', ':', '"')
+	for len(m) < L-2 {
+		m = append(m, 'a')
+	}
+	m = append(m, '"', '}')
+	if L > 8 {
+		first, last := vByte("first_char"), vByte("last_char")
+		for _, c := range []byte{first, last} {
+			vAssume(vAnd(c >= 0x20, vAnd(c != '"', vAnd(c != '\\', c < 0x7f))))
+		}
+		m[6], m[L-3] = first, last
+	}
+	return m
+}
+
+func vh_C32_sizes() {
+	n := vNewNode(Config{})
+	nl := vParam("c32_sizes", len(vC32Sizes))
+	if nl > len(vC32Sizes) {
+		nl = len(vC32Sizes)
+	}
+	L := vC32Sizes[vChoice("size", nl)]
+	big := vC32SizedMessage(L)
+	small := []byte(`{"d":1}`)
+	msgs := [][]byte{big, small}
+	sse := vChoice("transport", 2) == 0
+	split := vChoice("split", 2)
+	var cn *vC32Conn
+	if sse {
+		cn = vC32Serve(NewSSEHandler(n, SSEConfig{}), "")
+	} else {
+		cn = vC32Serve(NewHTTPStreamHandler(n, HTTPStreamConfig{}), "")
+	}
+	vC32Send(cn, msgs, split)
+	vC32End(cn, 0)
+	vAssert(cn.w.status == 200, "status-200")
+	var got [][]byte
+	if sse {
+		evs, pending := vC32ParseSSE(cn.w.body)
+		vAssert(!pending, "no-incomplete-event")
+		for _, e := range evs {
+			vAssert(!e.hasType, "default-event-type")
+			got = append(got, e.data)
+		}
+	} else {
+		recs, pending := vC32SplitLines(cn.w.body)
+		vAssert(!pending, "no-incomplete-record")
+		got = recs
+	}
+	vAssert(len(got) == len(msgs), "one-event-or-record-per-message")
+	for i := range msgs {
+		if i < len(got) {
+			vAssert(len(got[i]) == len(msgs[i]) && vBytesEq(got[i], msgs[i]), "content-equals-message")
+		}
+	}
+	vCover(L >= 4096, "message-of-4k")
+}
